@@ -80,9 +80,10 @@ Theorem decode_header_vbytes b0 rl body t :
   decode_header (b0 :: vbytes rl ++ body) t = HOk (1 + varint_len rl) (b2n b0 mod 16) rl.
 Proof.
   intros Hty Hfl Hrl Hb. rewrite decode_header_eq. unfold header_spec.
-  destruct (vbytes_nonempty rl) as (x & y & Hv).
-  rewrite Hv. cbn [app]. rewrite <- (app_comm_cons y body x). change (x :: y ++ body) with ((x :: y) ++ body).
-  rewrite <- Hv.
+  destruct (vbytes_nonempty rl) as (x0 & y0 & Hv).
+  remember (vbytes rl ++ body) as r eqn:Hr.
+  destruct r as [| x y]; [rewrite Hv in Hr; discriminate |].
+  cbv iota. rewrite Hr.
   fold (nibble_hi b0) in Hty. fold (nibble_lo b0) in Hfl. fold (nibble_lo b0).
   assert (E1 : negb (nibble_hi b0 =? type_code t) = false) by lia.
   rewrite E1.
